@@ -435,5 +435,232 @@ impl<A: Float> AffFuncBase<PolytopeT, OwnedRepr<A>> {
 //@end
 }
 
+// =================================================================== polytopes (C14)
+pub proof fn lemma_hypercube_rows(dim: int, x: V, i: int)
+    requires x.len() == dim, 0 <= i < dim
+    ensures dotp((eye(dim) + mneg(eye(dim)))[i], x, dim) == x[i], dotp((eye(dim) + mneg(eye(dim)))[i + dim], x, dim) == -x[i]
+{
+    let big = eye(dim) + mneg(eye(dim));
+    lemma_dotp_unit(eye(dim)[i], x, dim, i, 1real);
+    lemma_dotp_neg_left(eye(dim)[i], x, dim);
+    assert(1real * x[i] == x[i]) by(nonlinear_arith);
+    assert(big[i] == eye(dim)[i]);
+    assert(big[i + dim] == mneg(eye(dim))[i]);
+}
+
+pub proof fn lemma_sat_rows<I, S: Data<Elem = A>, A: Float, I2, S2: Data<Elem = A>>(p: &AffFuncBase<I, S>, q: &AffFuncBase<I2, S2>, x: V, y: V)
+    requires p.mat.nrows() == q.mat.nrows(),
+        forall|i: int| 0 <= i < p.mat.nrows() ==> (dotp(#[trigger] p.mat.m()[i], x, x.len() as int) <= p.bias.v()[i] <==> dotp(q.mat.m()[i], y, y.len() as int) <= q.bias.v()[i])
+    ensures p.sat(x) <==> q.sat(y)
+{
+    if p.sat(x) {
+        assert forall|i: int| 0 <= i < q.mat.nrows() implies dotp(#[trigger] q.mat.m()[i], y, y.len() as int) <= q.bias.v()[i] by { assert(dotp(p.mat.m()[i], x, x.len() as int) <= p.bias.v()[i]); }
+    }
+    if q.sat(y) {
+        assert forall|i: int| 0 <= i < p.mat.nrows() implies dotp(#[trigger] p.mat.m()[i], x, x.len() as int) <= p.bias.v()[i] by { assert(dotp(q.mat.m()[i], y, y.len() as int) <= q.bias.v()[i]); }
+    }
+}
+
+impl<A: Float> PolytopeG<A> {
+//@fn src/linalg/affine.rs | impl<A: Float> PolytopeG<A> | unbounded
+//@spec
+    ensures r.ok(), r.mat.ncols() == dim, forall|x: V| x.len() == dim ==> #[trigger] r.sat(x),
+//@hint start
+        proof { assert forall|x: V| x.len() == dim implies #[trigger] dotp(mconst(1, dim as int, 0real)[0], x, x.len() as int) == 0real by { lemma_dotp_zero_left(mconst(1, dim as int, 0real)[0], x, dim as int); } }
+//@end
+
+//@fn src/linalg/affine.rs | impl<A: Float> PolytopeG<A> | empty
+//@spec
+    ensures r.ok(), r.mat.ncols() == dim, forall|x: V| x.len() == dim ==> !#[trigger] r.sat(x),
+//@hint start
+        proof { assert forall|x: V| x.len() == dim implies #[trigger] dotp(mconst(1, dim as int, 0real)[0], x, x.len() as int) == 0real by { lemma_dotp_zero_left(mconst(1, dim as int, 0real)[0], x, dim as int); } }
+//@end
+}
+
+impl<A: Float> PolytopeG<A> {
+//@fn src/linalg/affine.rs | impl<A: Float> PolytopeG<A> | hypercube
+//@spec
+    requires 2 * dim <= usize::MAX
+    ensures r.ok(), r.mat.ncols() == dim,
+        forall|x: V| x.len() == dim ==> (#[trigger] r.sat(x) <==> forall|i: int| 0 <= i < dim ==> -radius.rv() <= #[trigger] x[i] <= radius.rv()),
+//@hint start
+        broadcast use axiom_array2_shape;
+//@hint end
+        proof {
+            let big = eye(dim as int) + mneg(eye(dim as int));
+            assert forall|x: V| x.len() == dim implies
+                ((forall|i: int| 0 <= i < 2 * dim ==> dotp(#[trigger] big[i], x, x.len() as int) <= radius.rv())
+                    <==> forall|i: int| 0 <= i < dim ==> -radius.rv() <= #[trigger] x[i] <= radius.rv()) by {
+                if forall|i: int| 0 <= i < 2 * dim ==> dotp(#[trigger] big[i], x, x.len() as int) <= radius.rv() {
+                    assert forall|i: int| 0 <= i < dim implies -radius.rv() <= #[trigger] x[i] <= radius.rv() by {
+                        lemma_hypercube_rows(dim as int, x, i);
+                        assert(dotp(big[i], x, x.len() as int) <= radius.rv());
+                        assert(dotp(big[i + dim], x, x.len() as int) <= radius.rv());
+                    }
+                }
+                if forall|i: int| 0 <= i < dim ==> -radius.rv() <= #[trigger] x[i] <= radius.rv() {
+                    assert forall|i: int| 0 <= i < 2 * dim implies dotp(#[trigger] big[i], x, x.len() as int) <= radius.rv() by {
+                        if i < dim { lemma_hypercube_rows(dim as int, x, i); assert(-radius.rv() <= x[i] <= radius.rv()); }
+                        else { let k = i - dim; lemma_hypercube_rows(dim as int, x, k); assert(-radius.rv() <= x[k] <= radius.rv()); }
+                    }
+                }
+            }
+        }
+//@end
+}
+
+/// # Distances
+impl<D: Data<Elem = A>, A: Float + LinalgScalar> AffFuncBase<PolytopeT, D> {
+//@fn src/linalg/affine.rs | impl<D: Data<Elem = A>, A: Float + LinalgScalar> AffFuncBase<PolytopeT, D> | distance_raw
+//@bodysub &self.bias - self.mat.dot(point) => Sub::sub(&self.bias, self.mat.dot(point))
+//@spec
+    requires self.ok(), point.v().len() == self.mat.ncols()
+    ensures r.v() == vsub(self.bias.v(), mv(self.mat.m(), point.v()))
+//@hint start
+        broadcast use axiom_array2_shape;
+//@end
+}
+
+/// # Combination of Polytopes
+impl<D: Data<Elem = A>, A: Float + LinalgScalar> AffFuncBase<PolytopeT, D> {
+//@fn src/linalg/affine.rs | impl<D: Data<Elem = A>, A: Float + LinalgScalar> AffFuncBase<PolytopeT, D> | translate
+//@bodysub &self.bias + self.mat.dot(direction) => Add::add(&self.bias, self.mat.dot(direction))
+//@spec
+    requires self.ok(), direction.v().len() == self.mat.ncols()
+    ensures r.ok(), r.mat.ncols() == self.mat.ncols(),
+        // x in P.translate(d)  <=>  x - d in P
+        forall|x: V| x.len() == self.mat.ncols() ==> (#[trigger] r.sat(x) <==> self.sat(vsub(x, direction.v()))),
+//@hint start
+        broadcast use axiom_array2_shape;
+//@hint end
+        proof {
+            let m = self.mat.m(); let b = self.bias.v(); let d = direction.v();
+            let nb = vadd(b, mv(m, d));
+            assert forall|x: V| x.len() == self.mat.ncols() implies
+                ((forall|i: int| 0 <= i < self.mat.nrows() ==> dotp(#[trigger] m[i], x, x.len() as int) <= nb[i]) <==> self.sat(vsub(x, d))) by {
+                assert forall|i: int| 0 <= i < self.mat.nrows() implies
+                    (dotp(#[trigger] m[i], x, x.len() as int) <= nb[i] <==> dotp(m[i], vsub(x, d), vsub(x, d).len() as int) <= b[i]) by {
+                    lemma_dotp_sub_right(m[i], x, d, x.len() as int);
+                }
+                if forall|i: int| 0 <= i < self.mat.nrows() ==> dotp(#[trigger] m[i], x, x.len() as int) <= nb[i] {
+                    assert forall|i: int| 0 <= i < self.mat.nrows() implies dotp(#[trigger] m[i], vsub(x, d), vsub(x, d).len() as int) <= b[i] by { assert(dotp(m[i], x, x.len() as int) <= nb[i]); }
+                }
+                if self.sat(vsub(x, d)) {
+                    assert forall|i: int| 0 <= i < self.mat.nrows() implies dotp(#[trigger] m[i], x, x.len() as int) <= nb[i] by { assert(dotp(m[i], vsub(x, d), vsub(x, d).len() as int) <= b[i]); }
+                }
+            }
+        }
+//@end
+
+//@fn src/linalg/affine.rs | impl<D: Data<Elem = A>, A: Float + LinalgScalar> AffFuncBase<PolytopeT, D> | intersection
+//@spec
+    requires self.ok(), other.ok(), self.mat.ncols() == other.mat.ncols()
+    ensures r.ok(), r.mat.ncols() == self.mat.ncols(),
+        // x in the intersection  <=>  x in both operands
+        forall|x: V| x.len() == self.mat.ncols() ==> (#[trigger] r.sat(x) <==> self.sat(x) && other.sat(x)),
+//@hint start
+        broadcast use axiom_array2_shape;
+//@hint end
+        proof {
+            let m1 = self.mat.m(); let m2 = other.mat.m(); let b1 = self.bias.v(); let b2 = other.bias.v();
+            let n1 = self.mat.nrows(); let n2 = other.mat.nrows();
+            assert forall|x: V| x.len() == self.mat.ncols() implies
+                ((forall|i: int| 0 <= i < n1 + n2 ==> dotp(#[trigger] (m1 + m2)[i], x, x.len() as int) <= (b1 + b2)[i]) <==> self.sat(x) && other.sat(x)) by {
+                if forall|i: int| 0 <= i < n1 + n2 ==> dotp(#[trigger] (m1 + m2)[i], x, x.len() as int) <= (b1 + b2)[i] {
+                    assert forall|i: int| 0 <= i < n1 implies dotp(#[trigger] m1[i], x, x.len() as int) <= b1[i] by { assert((m1 + m2)[i] == m1[i]); assert(dotp((m1 + m2)[i], x, x.len() as int) <= (b1 + b2)[i]); }
+                    assert forall|i: int| 0 <= i < n2 implies dotp(#[trigger] m2[i], x, x.len() as int) <= b2[i] by { assert((m1 + m2)[i + n1] == m2[i]); assert(dotp((m1 + m2)[i + n1], x, x.len() as int) <= (b1 + b2)[i + n1]); }
+                }
+                if self.sat(x) && other.sat(x) {
+                    assert forall|i: int| 0 <= i < n1 + n2 implies dotp(#[trigger] (m1 + m2)[i], x, x.len() as int) <= (b1 + b2)[i] by {
+                        if i < n1 { assert((m1 + m2)[i] == m1[i]); assert(dotp(m1[i], x, x.len() as int) <= b1[i]); }
+                        else { assert((m1 + m2)[i] == m2[i - n1]); assert(dotp(m2[i - n1], x, x.len() as int) <= b2[i - n1]); }
+                    }
+                }
+            }
+        }
+//@end
+
+//@fn src/linalg/affine.rs | impl<D: Data<Elem = A>, A: Float + LinalgScalar> AffFuncBase<PolytopeT, D> | apply_pre
+//@spec
+    requires self.ok(), func.ok(), self.mat.ncols() == func.mat.nrows()
+    ensures r.ok(), r.mat.ncols() == func.mat.ncols(),
+        // x in P.apply_pre(f)  <=>  f(x) in P
+        forall|x: V| x.len() == func.mat.ncols() ==> (#[trigger] r.sat(x) <==> self.sat(func.ap(x))),
+//@hint start
+        broadcast use axiom_array2_shape;
+//@hint end
+        proof {
+            let m = self.mat.m(); let b = self.bias.v(); let f = func.mat.m(); let c = func.bias.v();
+            let nm = mm(m, f, func.mat.ncols()); let nb = vadd(vneg(mv(m, c)), b);
+            assert forall|x: V| x.len() == func.mat.ncols() implies
+                ((forall|i: int| 0 <= i < self.mat.nrows() ==> dotp(#[trigger] nm[i], x, x.len() as int) <= nb[i]) <==> self.sat(vadd(mv(f, x), c))) by {
+                lemma_mm_mv(m, f, x, func.mat.ncols());
+                lemma_mv_add_right(m, mv(f, x), c);
+                let y = vadd(mv(f, x), c);
+                assert forall|i: int| 0 <= i < self.mat.nrows() implies (dotp(#[trigger] nm[i], x, x.len() as int) <= nb[i] <==> dotp(m[i], y, y.len() as int) <= b[i]) by {
+                    assert(mv(nm, x)[i] == dotp(nm[i], x, x.len() as int));
+                    assert(mv(m, y)[i] == dotp(m[i], y, y.len() as int));
+                    assert(mv(m, y)[i] == vadd(mv(m, mv(f, x)), mv(m, c))[i]);
+                }
+                if forall|i: int| 0 <= i < self.mat.nrows() ==> dotp(#[trigger] nm[i], x, x.len() as int) <= nb[i] {
+                    assert forall|i: int| 0 <= i < self.mat.nrows() implies dotp(#[trigger] m[i], y, y.len() as int) <= b[i] by { assert(dotp(nm[i], x, x.len() as int) <= nb[i]); }
+                }
+                if self.sat(y) {
+                    assert forall|i: int| 0 <= i < self.mat.nrows() implies dotp(#[trigger] nm[i], x, x.len() as int) <= nb[i] by { assert(dotp(m[i], y, y.len() as int) <= b[i]); }
+                }
+            }
+        }
+//@end
+
+//@fn src/linalg/affine.rs | impl<D: Data<Elem = A>, A: Float + LinalgScalar> AffFuncBase<PolytopeT, D> | apply_post
+//@spec
+    requires self.ok(), self.mat.ncols() == inverse_mat.nrows(), inverse_mat.nrows() == bias.v().len(), inverse_mat.ncols() == bias.v().len()
+    ensures r.ok(), r.mat.ncols() == inverse_mat.ncols(),
+        // y in the image  <=>  inverse_mat (y - bias) in P   (exactly the image of P under x |-> inverse_mat^-1 x + bias)
+        forall|y: V| y.len() == inverse_mat.ncols() ==> (#[trigger] r.sat(y) <==> self.sat(mv(inverse_mat.m(), vsub(y, bias.v())))),
+//@hint start
+        broadcast use axiom_array2_shape;
+//@hint end
+        proof {
+            let m = self.mat.m(); let b = self.bias.v(); let g = inverse_mat.m(); let c = bias.v();
+            let nm = mm(m, g, inverse_mat.ncols()); let nb = vadd(mv(m, mv(g, c)), b);
+            assert forall|y: V| y.len() == inverse_mat.ncols() implies
+                ((forall|i: int| 0 <= i < self.mat.nrows() ==> dotp(#[trigger] nm[i], y, y.len() as int) <= nb[i]) <==> self.sat(mv(g, vsub(y, c)))) by {
+                lemma_mm_mv(m, g, y, inverse_mat.ncols());
+                lemma_mv_sub_right(g, y, c);
+                lemma_mv_sub_right(m, mv(g, y), mv(g, c));
+                let z = mv(g, vsub(y, c));
+                assert(z =~= vsub(mv(g, y), mv(g, c)));
+                assert forall|i: int| 0 <= i < self.mat.nrows() implies (dotp(#[trigger] nm[i], y, y.len() as int) <= nb[i] <==> dotp(m[i], z, z.len() as int) <= b[i]) by {
+                    assert(mv(nm, y)[i] == dotp(nm[i], y, y.len() as int));
+                    assert(mv(m, z)[i] == dotp(m[i], z, z.len() as int));
+                    assert(mv(m, z)[i] == vsub(mv(m, mv(g, y)), mv(m, mv(g, c)))[i]);
+                }
+                if forall|i: int| 0 <= i < self.mat.nrows() ==> dotp(#[trigger] nm[i], y, y.len() as int) <= nb[i] {
+                    assert forall|i: int| 0 <= i < self.mat.nrows() implies dotp(#[trigger] m[i], z, z.len() as int) <= b[i] by { assert(dotp(nm[i], y, y.len() as int) <= nb[i]); }
+                }
+                if self.sat(z) {
+                    assert forall|i: int| 0 <= i < self.mat.nrows() implies dotp(#[trigger] nm[i], y, y.len() as int) <= nb[i] by { assert(dotp(m[i], z, z.len() as int) <= b[i]); }
+                }
+            }
+        }
+//@end
+
+//@fn src/linalg/affine.rs | impl<D: Data<Elem = A>, A: Float + LinalgScalar> AffFuncBase<PolytopeT, D> | rotate
+//@spec
+    requires self.ok(), orthogonal_mat.nrows() == self.mat.ncols(), orthogonal_mat.ncols() == self.mat.ncols()
+    ensures r.ok(), r.mat.ncols() == self.mat.ncols(),
+        // y in rotate(P, R)  <=>  R^T y in P
+        forall|y: V| y.len() == self.mat.ncols() ==> (#[trigger] r.sat(y) <==> self.sat(mv(transpose(orthogonal_mat.m(), orthogonal_mat.ncols()), y))),
+//@hint start
+        broadcast use axiom_array2_shape;
+//@hint end
+        proof {
+            let n = self.mat.ncols();
+            assert forall|y: V| y.len() == n implies #[trigger] vsub(y, vconst(n, 0real)) =~= y by {}
+        }
+//@end
+}
+
 } // verus!
 fn main() {}
